@@ -214,3 +214,140 @@ Example C07_bfe_instance : field_ok bfe_ops fp_field canon bden.
 Proof. exact bfe_field_ok. Qed.
 Example C07_bfe_operands : Forall canon w_one_stored /\ Forall canon w_lin_stored /\ Forall canon w_lin.
 Proof. exact okb_witnesses. Qed.
+
+(* ---- Polynomial<XFieldElement> and the mixed BFieldElement x XFieldElement products: ALL hypotheses discharged.
+   The field is k3_field = Fp[X]/(X^3 - X + 1) on triples of Fp (proofs/XFieldOk.v: xfe_field_ok, C01_xfe_field_ok);
+   `canon3` = triple of canonical Montgomery words, `denX` its field value; a BFieldElement operand of a mixed product
+   denotes through the embedding bden3 = iota o bden of the base field (proofs/XFieldNtt.v: bfe_field_ok3).  The C06
+   hypotheses are the theorems ntt_x_field_dft / intt_x_field_idft of proofs/XFieldNtt.v (ntt_x on XFieldElement vectors
+   with BFieldElement twiddles is the DFT over k3_field at the lifted root), transform lengths up to 2^31.
+   The mixed coefficient products of the code are both `xscale`: mul_bx b x = mul_xb x b = xscale x b. *)
+From TF Require Import XField XFieldProofs XFieldOk XFieldNtt XFieldPoly.
+
+Theorem C07_xfe_multiply : forall a b, Forall canon3 a -> Forall canon3 b ->
+  poly_degree xfe_ops a + poly_degree xfe_ops b + 1 <= 2 ^ 31 ->
+  exists r, poly_multiply xfe_ops ntt_x intt_x a b = Some r /\ Forall canon3 r /\
+            zlen r <= Z.max 0 (poly_degree xfe_ops a + poly_degree xfe_ops b + 1) /\
+            peq k3_field (map denX r) (pmul k3_field (map denX a) (map denX b)).
+Proof. exact xfe_multiply_spec. Qed.
+Print Assumptions C07_xfe_multiply.
+
+Theorem C07_xfe_fast_multiply : forall a b, Forall canon3 a -> Forall canon3 b ->
+  poly_degree xfe_ops a + poly_degree xfe_ops b + 1 <= 2 ^ 31 ->
+  exists r, poly_fast_multiply xfe_ops ntt_x intt_x a b = Some r /\ Forall canon3 r /\
+            zlen r <= Z.max 0 (poly_degree xfe_ops a + poly_degree xfe_ops b + 1) /\
+            peq k3_field (map denX r) (pmul k3_field (map denX a) (map denX b)).
+Proof. exact xfe_fast_multiply_spec. Qed.
+Print Assumptions C07_xfe_fast_multiply.
+
+Theorem C07_xfe_naive_multiply : forall a b, Forall canon3 a -> Forall canon3 b ->
+  Forall canon3 (poly_naive_multiply xfe_ops a b) /\
+  peq k3_field (map denX (poly_naive_multiply xfe_ops a b)) (pmul k3_field (map denX a) (map denX b)).
+Proof. exact xfe_naive_multiply_spec. Qed.
+Print Assumptions C07_xfe_naive_multiply.
+
+Theorem C07_xfe_square : forall l, Forall canon3 l -> 2 * poly_degree xfe_ops l + 1 <= 2 ^ 31 ->
+  exists r, poly_square xfe_ops ntt_x intt_x l = Some r /\ Forall canon3 r /\
+            peq k3_field (map denX r) (pmul k3_field (map denX l) (map denX l)).
+Proof. exact xfe_square_spec. Qed.
+Print Assumptions C07_xfe_square.
+
+Theorem C07_xfe_fast_square : forall l, Forall canon3 l -> 2 * poly_degree xfe_ops l + 1 <= 2 ^ 31 ->
+  exists r, poly_fast_square xfe_ops ntt_x intt_x l = Some r /\ Forall canon3 r /\
+            peq k3_field (map denX r) (pmul k3_field (map denX l) (map denX l)).
+Proof. exact xfe_fast_square_spec. Qed.
+Print Assumptions C07_xfe_fast_square.
+
+Theorem C07_xfe_slow_square : forall l, Forall canon3 l ->
+  exists r, poly_slow_square xfe_ops l = Some r /\ Forall canon3 r /\
+            peq k3_field (map denX r) (pmul k3_field (map denX l) (map denX l)).
+Proof. exact xfe_slow_square_spec. Qed.
+Print Assumptions C07_xfe_slow_square.
+
+Theorem C07_xfe_pow : forall l e, Forall canon3 l -> 0 <= e ->
+  exists r, poly_pow xfe_ops l e = Some r /\ Forall canon3 r /\
+            peq k3_field (map denX r) (ppow k3_field (map denX l) (Z.to_nat e)).
+Proof. exact xfe_pow_spec. Qed.
+Print Assumptions C07_xfe_pow.
+
+Theorem C07_xfe_fast_pow : forall l e, Forall canon3 l -> 0 <= e ->
+  Z.max 0 (poly_degree xfe_ops l) * e * 2 + 1 <= 2 ^ 31 ->
+  exists r, poly_fast_pow xfe_ops ntt_x intt_x l e = Some r /\ Forall canon3 r /\
+            peq k3_field (map denX r) (ppow k3_field (map denX l) (Z.to_nat e)).
+Proof. exact xfe_fast_pow_spec. Qed.
+Print Assumptions C07_xfe_fast_pow.
+
+Theorem C07_xfe_batch_multiply : forall ps, Forall (Forall canon3) ps -> total_len ps <= 2 ^ 31 ->
+  exists r, poly_batch_multiply xfe_ops ntt_x intt_x ps = Some r /\ Forall canon3 r /\
+            peq k3_field (map denX r) (pprod k3_field (map (map denX) ps)).
+Proof. exact xfe_batch_multiply_spec. Qed.
+Print Assumptions C07_xfe_batch_multiply.
+
+Theorem C07_xfe_par_batch_multiply : forall nt ps, 1 <= nt -> Forall (Forall canon3) ps -> total_len ps <= 2 ^ 31 ->
+  exists r, poly_par_batch_multiply xfe_ops ntt_x intt_x nt ps = Some r /\ Forall canon3 r /\
+            peq k3_field (map denX r) (pprod k3_field (map (map denX) ps)).
+Proof. exact xfe_par_batch_multiply_spec. Qed.
+Print Assumptions C07_xfe_par_batch_multiply.
+
+Theorem C07_xfe_scalar_mul : forall l s, Forall canon3 l -> canon3 s ->
+  Forall canon3 (poly_scalar_mul xfe_ops l s) /\
+  peq k3_field (map denX (poly_scalar_mul xfe_ops l s)) (pmul k3_field (pconst (denX s)) (map denX l)).
+Proof. exact xfe_scalar_mul_spec. Qed.
+Print Assumptions C07_xfe_scalar_mul.
+
+Theorem C07_xfe_scale : forall l a, Forall canon3 l -> canon3 a ->
+  Forall canon3 (poly_scale xfe_ops l a) /\ map denX (poly_scale xfe_ops l a) = pcompscale k3_field (map denX l) (denX a) /\
+  forall x, peval k3_field (map denX (poly_scale xfe_ops l a)) x = peval k3_field (map denX l) (kmul k3_field (denX a) x).
+Proof. exact xfe_scale_spec. Qed.
+Print Assumptions C07_xfe_scale.
+
+(* Polynomial<BFieldElement> * Polynomial<XFieldElement> *)
+Theorem C07_bx_naive_multiply : forall a b, Forall canon a -> Forall canon3 b ->
+  Forall canon3 (poly_naive_multiply_gen bfe_ops xfe_ops xfe_ops mul_bx a b) /\
+  peq k3_field (map denX (poly_naive_multiply_gen bfe_ops xfe_ops xfe_ops mul_bx a b))
+      (pmul k3_field (map bden3 a) (map denX b)).
+Proof. exact bx_naive_multiply_spec. Qed.
+Print Assumptions C07_bx_naive_multiply.
+Theorem C07_bx_fast_multiply : forall a b, Forall canon a -> Forall canon3 b ->
+  poly_degree bfe_ops a + poly_degree xfe_ops b + 1 <= 2 ^ 31 ->
+  exists r, poly_fast_multiply_gen bfe_ops xfe_ops mul_bx ntt_b ntt_x intt_x a b = Some r /\ Forall canon3 r /\
+            zlen r <= Z.max 0 (poly_degree bfe_ops a + poly_degree xfe_ops b + 1) /\
+            peq k3_field (map denX r) (pmul k3_field (map bden3 a) (map denX b)).
+Proof. exact bx_fast_multiply_spec. Qed.
+Print Assumptions C07_bx_fast_multiply.
+Theorem C07_bx_multiply : forall a b, Forall canon a -> Forall canon3 b ->
+  poly_degree bfe_ops a + poly_degree xfe_ops b + 1 <= 2 ^ 31 ->
+  exists r, poly_multiply_gen bfe_ops xfe_ops xfe_ops mul_bx ntt_b ntt_x intt_x a b = Some r /\ Forall canon3 r /\
+            zlen r <= Z.max 0 (poly_degree bfe_ops a + poly_degree xfe_ops b + 1) /\
+            peq k3_field (map denX r) (pmul k3_field (map bden3 a) (map denX b)).
+Proof. exact bx_multiply_spec. Qed.
+Print Assumptions C07_bx_multiply.
+(* Polynomial<XFieldElement> * Polynomial<BFieldElement> *)
+Theorem C07_xb_naive_multiply : forall a b, Forall canon3 a -> Forall canon b ->
+  Forall canon3 (poly_naive_multiply_gen xfe_ops bfe_ops xfe_ops mul_xb a b) /\
+  peq k3_field (map denX (poly_naive_multiply_gen xfe_ops bfe_ops xfe_ops mul_xb a b))
+      (pmul k3_field (map denX a) (map bden3 b)).
+Proof. exact xb_naive_multiply_spec. Qed.
+Print Assumptions C07_xb_naive_multiply.
+Theorem C07_xb_fast_multiply : forall a b, Forall canon3 a -> Forall canon b ->
+  poly_degree xfe_ops a + poly_degree bfe_ops b + 1 <= 2 ^ 31 ->
+  exists r, poly_fast_multiply_gen xfe_ops bfe_ops mul_xb ntt_x ntt_b intt_x a b = Some r /\ Forall canon3 r /\
+            zlen r <= Z.max 0 (poly_degree xfe_ops a + poly_degree bfe_ops b + 1) /\
+            peq k3_field (map denX r) (pmul k3_field (map denX a) (map bden3 b)).
+Proof. exact xb_fast_multiply_spec. Qed.
+Print Assumptions C07_xb_fast_multiply.
+Theorem C07_xb_multiply : forall a b, Forall canon3 a -> Forall canon b ->
+  poly_degree xfe_ops a + poly_degree bfe_ops b + 1 <= 2 ^ 31 ->
+  exists r, poly_multiply_gen xfe_ops bfe_ops xfe_ops mul_xb ntt_x ntt_b intt_x a b = Some r /\ Forall canon3 r /\
+            zlen r <= Z.max 0 (poly_degree xfe_ops a + poly_degree bfe_ops b + 1) /\
+            peq k3_field (map denX r) (pmul k3_field (map denX a) (map bden3 b)).
+Proof. exact xb_multiply_spec. Qed.
+Print Assumptions C07_xb_multiply.
+
+(* the instances exist and the mixed products are the model's xscale *)
+Example C07_xfe_instance : field_ok xfe_ops k3_field canon3 denX /\ field_ok bfe_ops k3_field canon bden3.
+Proof. exact (conj xfe_field_ok bfe_field_ok3). Qed.
+Example C07_mixed_products : (forall b x, mul_bx b x = xscale x b) /\ (forall x b, mul_xb x b = xscale x b).
+Proof. split; reflexivity. Qed.
+Example C07_xfe_operands : Forall canon3 [xone; (bfe_new 5, bfe_new 7, bfe_zero)] /\ Forall canon3 [xzero; xone; xzero].
+Proof. split; repeat constructor; vm_compute; (discriminate || reflexivity). Qed.
